@@ -160,10 +160,11 @@ Qed.
    assertion).  Every statement is for ALL row ranges a..b (inside the sequence
    rows, reaching into or past the look-ahead rows, empty, inverted), ALL previous
    contents [old] of the reused score buffer and ALL contents [pads] of the padding
-   of the aligned scoring-matrix rows.  The lane tables ([avx2_*_consts]) and the
-   dispatcher's arm table ([dispatch_score_f32]) are regenerated from avx2.rs /
-   dispatch.rs by the translator on every run; [avx2_layout_ok] is re-evaluated
-   here by computation. *)
+   of the aligned scoring-matrix rows.  The lane tables ([avx2_*_consts], [sse2_consts],
+   [neon_consts]) and the dispatcher's arm table ([dispatch_score_f32]) are regenerated
+   from avx2.rs / sse2.rs / neon.rs / dispatch.rs by the translators on every run; the
+   reflection checks [avx2_layout_ok] / [lane4_layout_ok] are re-evaluated here by
+   computation ([vm_compute; reflexivity] inside each proof). *)
 
 Theorem C01_score_avx2_permute_eq :
   forall (T : Type) (add : T -> T -> T) (zero : T) (K : nat)
@@ -256,10 +257,8 @@ Proof.
 Qed.
 
 (* NEON (neon.rs is not compiled on an x86 host: this model is tied to the source by the
-   translator only, its intrinsics semantics is never exercised).  Same kernel shape as SSE2;
-   the wrapper has NO row-range assertion, so equality holds for the ranges whose rows, and
-   the M - 1 rows below them, exist in the sequence matrix (all full scans and all sub-ranges
-   a < b <= R of a configured sequence), for L < M and for empty ranges ... *)
+   translator only -- kernel lane bookkeeping and the three wrapper guards --, its intrinsics
+   semantics is never exercised).  Same kernel shape and same guards as SSE2. *)
 Theorem C01_score_neon_eq :
   forall (T : Type) (add : T -> T -> T) (zero : T) (P : T -> Prop) (C K : nat)
          (pssm : list (list T)) (s : list nat) (q : sseq) (a b : nat) (old : sscores T),
@@ -268,25 +267,25 @@ Theorem C01_score_neon_eq :
     0 < K -> Forall (fun x => x < K) s -> pssm_wf K pssm ->
     Striped C (K - 1) s q -> sc_wf C old ->
     1 <= length pssm -> length pssm - 1 <= sq_wrap q ->
-    b + length pssm - 1 <= length (sq_mat q) \/ sq_len q < length pssm \/ b <= a ->
     res_equiv (neon_rows_into add zero neon_consts C pssm q a b old)
               (generic_rows_into add zero C pssm q a b old).
 Proof.
-  intros T add zero P C K pssm s q a b old P0 Pa Pz HC HC16 HK Hs Hp Hst Hw HM Hwrap Hr.
-  apply (neon_equiv_in_range add zero C K P); auto; try (vm_compute; reflexivity).
+  intros T add zero P C K pssm s q a b old P0 Pa Pz HC HC16 HK Hs Hp Hst Hw HM Hwrap.
+  apply (neon_equiv add zero C K P); auto; try (vm_compute; reflexivity).
   eapply striped_mat_wf; eauto.
 Qed.
 
-(* ... and is REFUTED beyond: a range reaching past the look-ahead rows makes the NEON kernel
-   load through a raw pointer past the sequence matrix (undefined behaviour, [Err 66]) where the
-   generic kernel panics on the slice index and the SSE2 / AVX2 wrappers panic on their assertion.
-   Witness: L = 3, C = 16, M = 2, configure() (one look-ahead row), rows 0..2.  Finding by
-   reading + model; it cannot be replayed on this host. *)
-Theorem C01_neon_range_unguarded_refuted :
+(* The wrapper as it was BEFORE /repo commit 9cd9b52 (no row-range assertion) violated this: a
+   range reaching past the look-ahead rows made the NEON kernel load through a raw pointer past
+   the sequence matrix (undefined behaviour, [Err 66]) where the generic kernel panics on the slice
+   index and the SSE2 / AVX2 wrappers panic on their assertion.  Witness: L = 3, C = 16, M = 2,
+   configure() (one look-ahead row), rows 0..2; the repaired wrapper panics like SSE2. *)
+Theorem C01_neon_range_unguarded_old_refuted :
   let pssm := [[1; 2; 3; 4; 5]; [6; 7; 8; 9; 10]] in
   let q := stripe_of 16 4 [0; 1; 2] 1 in
   Striped 16 4 [0; 1; 2] q /\ pssm_wf 5 pssm /\ length pssm - 1 <= sq_wrap q /\
-  neon_rows_into Nat.add 0 neon_consts 16 pssm q 0 2 sc_empty = Err 66 /\
+  neon_rows_into_old Nat.add 0 neon_consts 16 pssm q 0 2 sc_empty = Err 66 /\
+  neon_rows_into Nat.add 0 neon_consts 16 pssm q 0 2 sc_empty = Panic 32 /\
   sse2_rows_into Nat.add 0 sse2_consts 16 pssm q 0 2 sc_empty = Panic 32 /\
   generic_rows_into Nat.add 0 16 pssm q 0 2 sc_empty = Panic 1.
 Proof.
@@ -490,6 +489,19 @@ Theorem check_C01_sound :
     check_C01 N pssm s vals = true -> Holds_C01 N pssm s vals.
 Proof. exact check_values_sound. Qed.
 
+(* the two other decisions behind PROPFAIL -- "identical values on every pipeline / arm" and
+   "a sub-range call returns rows a..b of the full scan" -- are extracted equality tests *)
+Theorem check_C01_backends_sound :
+  forall (g : obs) (others : list obs),
+    check_same_results g others = true -> Forall (fun o => o = g) others.
+Proof. exact check_same_results_sound. Qed.
+
+Theorem check_C01_subrange_sound :
+  forall (full sub : obs) (a b : nat),
+    check_subrange full sub a b = true ->
+    exists m r1 r2, full = Some (m, r1) /\ sub = Some (m, r2) /\ r2 = firstn (b - a) (skipn a r1).
+Proof. exact check_subrange_sound. Qed.
+
 (* ... and never rejects what the model computes (no false alarm on the model; the model is
    compared with the implementation bit for bit on every run) *)
 Theorem C01_model_passes_checker :
@@ -516,6 +528,47 @@ Proof.
   rewrite seq_nth by auto. cbn [Nat.add].
   apply defined_sum_holds. unfold f32_terms, score_terms.
   rewrite (terms_from_length F32.zero). exact HM23.
+Qed.
+
+(* The headline statement, 32 columns, binary32: on a configured striped sequence the generic,
+   AVX2, SSE2 and dispatched (every arm) pipelines all return the same score matrix; its
+   unstripe() is the list of the defined scores of positions 0 .. L - M (exactly L - M + 1
+   values, none when L < M), and every value meets the property on real numbers. *)
+Theorem C01_every_backend_defined_score :
+  forall (K : nat) (pssm : list (list f32)) (pads : nat -> list f32) (s : list nat) (q : sseq) (ar : arm),
+    0 < K -> Forall (fun x => x < K) s -> pssm_wf K pssm ->
+    Striped 32 (K - 1) s q ->
+    1 <= length pssm -> length pssm - 1 <= sq_wrap q -> (Z.of_nat (length pssm) <= 2 ^ 23)%Z ->
+    exists sc vals,
+      generic_score F32.add F32.zero 32 pssm q = Ok sc /\
+      score_with (avx2_rows_into F32.add F32.zero avx2_permute_consts avx2_gather_consts K pssm pads) q = Ok sc /\
+      score_with (sse2_rows_into F32.add F32.zero sse2_consts 32 pssm) q = Ok sc /\
+      score_with (dispatch_rows_into F32.add F32.zero dispatch_score_f32 avx2_permute_consts
+                                     avx2_gather_consts sse2_consts K pssm pads ar) q = Ok sc /\
+      sc_unstripe 32 sc = Ok vals /\
+      vals = map (score_def F32.add F32.zero (K - 1) pssm s) (seq 0 (length s + 1 - length pssm)) /\
+      Holds_C01 (K - 1) pssm s vals.
+Proof.
+  intros K pssm pads s q ar HK Hs Hp Hst HM Hwrap HM23.
+  destruct (C01_scan_values_hold 32 K pssm s q ltac:(lia) HK Hs Hp Hst HM Hwrap HM23) as [vals [Hv Hh]].
+  pose proof (C01_score_unstripe f32 F32.add F32.zero 32 K pssm s q ltac:(lia) HK Hs Hp Hst HM Hwrap) as Hu.
+  assert (Ev : vals = map (score_def F32.add F32.zero (K - 1) pssm s) (seq 0 (length s + 1 - length pssm))).
+  { pose proof (eq_trans (eq_sym Hv) Hu) as E. inversion E. reflexivity. }
+  assert (Hgen : exists sc, generic_score F32.add F32.zero 32 pssm q = Ok sc).
+  { destruct (generic_score F32.add F32.zero 32 pssm q) as [sc| | |] eqn:E; try discriminate. exists sc. reflexivity. }
+  destruct Hgen as [sc Hsc]. exists sc, vals.
+  assert (Hsame : forall f,
+             (forall a b, res_equiv (f q a b sc_empty) (generic_rows_into F32.add F32.zero 32 pssm q a b sc_empty)) ->
+             score_with f q = Ok sc).
+  { intros f Hf. apply (score_with_eq_generic F32.add F32.zero 32 f pssm q sc Hf Hsc). }
+  split; [exact Hsc|]. split; [|split; [|split; [|split; [|split]]]]; auto.
+  - apply Hsame. intros a b.
+    apply (C01_score_avx2_eq f32 F32.add F32.zero K pssm pads s q a b sc_empty); auto. apply sc_wf_empty.
+  - apply Hsame. intros a b.
+    apply (C01_score_sse2_eq_f32 32 K pssm s q a b sc_empty); auto. lia. apply sc_wf_empty.
+  - apply Hsame. intros a b.
+    apply (C01_score_dispatch_eq_f32 K pssm pads s q ar a b sc_empty); auto. apply sc_wf_empty.
+  - rewrite Hsc in Hv. exact Hv.
 Qed.
 
 (* ====================================================================== *)
